@@ -24,7 +24,9 @@ Inductive case :=
    what another implementation of the format produces): elems = that file; loading it (followed by [extra])
    consumed [consumed] bytes; eq_native: the loaded value == the natively built one; answers: sampled queries agree *)
 | CStripW (path : N) (dbg : bool) (t : wty) (V : list N) (subset : N) (elems : list N) (extra : list N) (consumed : N)
-          (eq_native answers : bool).
+          (eq_native answers : bool)
+(* a call of the library panicked where none is allowed while the CSupp observations of these bits were taken *)
+| CCrash (len : N) (words : list N) (k : N).
 
 (* the model of an op sequence on a loaded vector *)
 Fixpoint run_ops (sp : selpath) (m : mode) (ops : list N) (b : bitvec) : option bitvec :=
@@ -93,6 +95,7 @@ Definition check (c : case) : N :=
       let m_ok := SerWM.stripped_ok (sp_of path) (mode_of dbg) t V subset bytes extra consumed in
       let s_ok := eq_native && answers && (consumed =? 8 * lenN elems) && SerWM.header_ok t V elems in
       code m_ok s_ok
+  | CCrash _ _ _ => 3
   end.
 
 Definition explain (c : case) :=
@@ -106,4 +109,5 @@ Definition explain (c : case) :=
   | CSkip dbg elems outcome pos next => ([], io_code (skip_option (mode_of dbg) (stream elems [])))
   | CStripW path dbg t V subset elems extra consumed eq_native answers =>
       ([], fst (SerWM.bad_dec (sp_of path) (mode_of dbg) t (stream elems [] ++ extra)))
+  | CCrash _ _ _ => ([], 98)
   end.
